@@ -236,7 +236,7 @@ impl RecvWindow {
         }
 
         if let Some(msg_len) = hdr.get_msg_len() {
-            if msg_len <= mtu && !hdr.is_final() {
+            if msg_len as usize + hdr.len() <= mtu as usize && !hdr.is_final() {
                 warn!("RX data integrity failure: An SDU that fits in a single BTP segment must be final");
                 Err(ErrorCode::InvalidData)?;
             }
